@@ -1,6 +1,7 @@
 package sim
 
 import (
+	"strings"
 	"encoding/base64"
 	"fmt"
 	cvmtypes "github.com/certikfoundation/shentu/x/cvm/types"
@@ -125,6 +126,18 @@ func GovProfile(seed int64, out *Recorder, nOps int) *Chain {
 			case k < 7: // certifier update
 				target := c.Accts[rng.Intn(cfg.NAcc)].Addr
 				alias := aliases[rng.Intn(len(aliases))]
+				// aliases that differ from an existing one only by surrounding blanks or case: different aliases to the module,
+				// which must then keep them apart everywhere (own random stream)
+				if alias != "" {
+					switch newRng(seed*31 + int64(i)).Intn(8) {
+					case 0:
+						alias = alias + " "
+					case 1:
+						alias = " " + alias
+					case 2:
+						alias = strings.ToUpper(alias[:1]) + alias[1:]
+					}
+				}
 				add := rng.Intn(3) > 0
 				if !add { // mostly target an existing certifier
 					cs := c.App.VerifCertKeeper().GetAllCertifiers(ctx)
